@@ -17,6 +17,16 @@ pub struct C01;
 pub struct Case {
     pub project: Project,
     pub opts: RunOpts,
+    /// repository fixture: expected verdict and golden bytes of some outputs; both the reference
+    /// model (when the fixture is inside its command vocabulary) and txtpp must reproduce them
+    #[serde(default, skip_serializing_if = "Option::is_none")]
+    pub golden: Option<Golden>,
+}
+
+#[derive(Debug, Clone, Serialize, Deserialize)]
+pub struct Golden {
+    pub expect_ok: bool,
+    pub files: std::collections::BTreeMap<String, crate::gen::project::FileData>,
 }
 
 pub fn gen_inputs(c: &mut Choices, project: &Project) -> (Vec<String>, bool) {
@@ -48,7 +58,7 @@ fn gen_case(c: &mut Choices) -> Case {
         inputs,
         shell: String::new(),
     };
-    Case { project, opts }
+    Case { project, opts, golden: None }
 }
 
 pub fn check(case: &Case, st: &mut Stats) -> Check {
@@ -62,6 +72,39 @@ pub fn check(case: &Case, st: &mut Stats) -> Check {
     };
     let mut model = Model::new(&tree, &case.project.dirs, &cfg);
     let ex = model.build(&case.opts.inputs, case.opts.recursive);
+    if let Some(g) = &case.golden {
+        // anchor: the model against the repository's golden files (no txtpp involved) ...
+        match &ex.verdict {
+            Verdict::Excluded(r) => println!("golden fixture outside the model's vocabulary ({r}); comparing txtpp only"),
+            v => {
+                if matches!(v, Verdict::Ok) != g.expect_ok {
+                    return viol("C01 model-contradicts-fixture", format!("the reference model says {v:?} but the repository fixture expects ok={}", g.expect_ok));
+                }
+                for (p, want) in &g.files {
+                    if ex.files.get(p).map(|s| s.as_bytes()) != Some(want.bytes()) {
+                        return viol(
+                            "C01 model-contradicts-fixture",
+                            format!("the reference model disagrees with the golden file for {p}:\n  golden {}\n  model  {:?}", show_bytes(want.bytes()), ex.files.get(p)),
+                        );
+                    }
+                }
+                println!("golden fixture reproduced by the reference model");
+            }
+        }
+        // ... and txtpp against them
+        fsx::write_tree(&sc.root, &tree, &case.project.dirs);
+        let out = runner::run_free(&sc.root, &case.opts);
+        if out.ok != g.expect_ok {
+            return viol("C01 fixture-verdict", format!("fixture expects ok={} but txtpp returned ok={}: {}", g.expect_ok, out.ok, super::common::short_err(&out.err)));
+        }
+        let after = fsx::read_tree(&sc.root);
+        for (p, want) in &g.files {
+            if after.get(p).map(|b| b.as_slice()) != Some(want.bytes()) {
+                return viol("C01 fixture-bytes", format!("{p} differs from the golden file:\n  golden {}\n  actual {}", show_bytes(want.bytes()), after.get(p).map(|b| show_bytes(b)).unwrap_or("missing".into())));
+            }
+        }
+        return Ok(());
+    }
     if let Verdict::Excluded(r) = &ex.verdict {
         st.exclude(r);
         return Ok(());
@@ -155,7 +198,7 @@ pub fn check(case: &Case, st: &mut Stats) -> Check {
 fn reduce(case: &Case) -> Vec<Case> {
     let mut v: Vec<Case> = reduce_project(&case.project)
         .into_iter()
-        .map(|p| Case { project: p, opts: case.opts.clone() })
+        .map(|p| Case { project: p, opts: case.opts.clone(), golden: None })
         .collect();
     if case.opts.threads != 1 {
         let mut c = case.clone();
